@@ -186,6 +186,16 @@ SymUpper(d, base) == { Sym(s.name, AddA(s.value, base)) : s \in AllSyms(d) } \cu
 
 SymbolsOK(d, base, obs) == SymLower(d, base) \subseteq obs /\ obs \subseteq SymUpper(d, base)
 
+\* exported symbols (what other objects of a linked set may refer to): the GLOBAL / WEAK
+\* definitions of .dynsym, whatever their type - untyped definitions such as _end or
+\* __bss_start are exported like objects and functions
+IsExportBind(s) == s.bind \in {STB_GLOBAL, STB_WEAK}
+ExportLower(d, base) ==
+  { Sym(s.name, AddA(s.value, base)) : s \in { t \in SeqSet(d.dynsym) : MustReport(t) /\ IsExportBind(t) } }
+ExportUpper(d, base) ==
+  { Sym(s.name, AddA(s.value, base)) : s \in { t \in SeqSet(d.dynsym) : t.shndx # SHN_UNDEF /\ IsExportBind(t) } }
+ExportsOK(d, base, obs) == ExportLower(d, base) \subseteq obs /\ obs \subseteq ExportUpper(d, base)
+
 (* ------------------------------ function entries ----------------------- *)
 DefinedFunc(s) == s.type = STT_FUNC /\ s.shndx # SHN_UNDEF
 \* certainly an entry: a function symbol defined in a section at a non-zero value
@@ -226,6 +236,8 @@ RebasingLaw(d, users, bb) ==
   /\ RebaseCells(Image(d, AZero), bb) = Image(d, bb)
   /\ RebaseSyms(SymLower(d, AZero), bb) = SymLower(d, bb)
   /\ RebaseSyms(SymUpper(d, AZero), bb) = SymUpper(d, bb)
+  /\ RebaseSyms(ExportLower(d, AZero), bb) = ExportLower(d, bb)
+  /\ RebaseSyms(ExportUpper(d, AZero), bb) = ExportUpper(d, bb)
   /\ RebaseAddrs(EntryLower(d, AZero, users), bb) = EntryLower(d, bb, users)
   /\ RebaseAddrs(EntryUpper(d, AZero, users), bb) = EntryUpper(d, bb, users)
   /\ AddA(ProgramEntry(d, AZero), bb) = ProgramEntry(d, bb)
